@@ -72,6 +72,34 @@ impl<IO> From<tokio_openssl::SslStream<IO>> for TlsStream<IO> {
 #[verifier::reject_recursive_types(IO)]
 pub struct AcceptFut<IO> { pub stream: Option<tokio_openssl::SslStream<IO>>, pub timeout: Sleep, pub _guard: CounterGuard }
 
+// ===================================================================== the acceptor factory: configuration reaches the service (C18)
+impl Clone for SslAcceptor { #[verifier::external_body] fn clone(&self) -> (r: SslAcceptor) { unimplemented!() } }
+//@include ../common/tls_factory.rs
+
+//@check_struct file=actix-tls/src/accept/openssl.rs name=Acceptor fields=acceptor,handshake_timeout
+//@extract_type file=actix-tls/src/accept/openssl.rs item="struct Acceptor"
+impl Acceptor {
+//@extract file=actix-tls/src/accept/openssl.rs item="impl Acceptor / fn new" ret=r props=C18 name=openssl::Acceptor::new
+//@spec
+    ensures r.handshake_timeout.ns() == 3 * 1_000_000_000,   // [C18] default handshake timeout: 3 s
+//@end
+//@extract file=actix-tls/src/accept/openssl.rs item="impl Acceptor / fn set_handshake_timeout" ret=r props=C18 name=openssl::Acceptor::set_handshake_timeout
+//@spec
+    // the returned reference IS the acceptor, now carrying the new timeout   [C18]
+    ensures r.handshake_timeout == handshake_timeout, r.acceptor == old(self).acceptor, *final(r) == *final(self),   // [C18]
+//@end
+//@extract file=actix-tls/src/accept/openssl.rs item="impl Clone for Acceptor / fn clone" ret=r props=C18 name=openssl::Acceptor::clone sig_replace="fn clone(=>fn clone_("
+//@spec
+    ensures r.handshake_timeout == self.handshake_timeout,   // [C18] a cloned factory keeps the configured timeout
+//@end
+//@extract file=actix-tls/src/accept/openssl.rs item="impl<IO: ActixStream> ServiceFactory<IO> for Acceptor / fn new_service" ret=r props=C18 name=openssl::Acceptor::new_service tls_with=MAX_CONN_COUNTER closures=0 sig_replace="fn new_service(&self, _: ())=>fn new_service(&self, _unused: ())"
+//@spec
+    ensures
+        // the service bounds handshakes by the factory's configured timeout and counts them on this thread's counter   [C18]
+        r.val matches Some(Ok(svc)) && svc.handshake_timeout == self.handshake_timeout && svc.conns.id() == thread_counter_id(),
+//@end
+}
+
 impl AcceptorService {
 
 //@extract file=actix-tls/src/accept/openssl.rs item="impl<IO: ActixStream> Service<IO> for AcceptorService / fn poll_ready" ret=r props=C18 name=openssl::poll_ready
